@@ -301,7 +301,7 @@ func (c *Conn) Close() error {
 // readClosed and the closing of readReady are guarded by readLock so that
 // handlePayload never signals on a closed channel.
 func (c *Conn) closeRead() {
-	c.handler.rmStream(c.stanzaWriter.sid)
+	c.handler.rmStream(c.stanzaWriter.sid, c)
 
 	c.readLock.Lock()
 	defer c.readLock.Unlock()
